@@ -11,7 +11,14 @@ that the final state is the initial one extended by a list of such emissions.  P
 of Props/C05 are read off that list.  Further sections: `pack` unfolded once (`pk_pack_eq`), the
 walk only appends (`pk_walk_grows`), metadata accounting, where `stop illegal` comes from and how
 a `stop` travels up, independence of the working directory and of the spelling of the source
-(Props/C16), the hop bound of `resolveExternalLink` (Props/C19p).
+(Props/C16), the hop bound of `resolveExternalLink`, termination of the walk (`pkTermBound`,
+`pk_walkNode_terminates`) and independence of the fuel (`pk_walk_fuel_succ`) (Props/C19p), the
+ignore rules and the names of the entries (`pk_visit_excluded_emits_nothing`,
+`pk_walk_names_not_excluded`; finding F43).
+
+The nested walk into a dereferenced directory runs with other options than its caller (a longer
+`visiting` list, finding F26), so every induction on fuel quantifies over the options, or over
+the list (`PackOpts.vis`), inside; the statements for fixed options are instances.
 -/
 namespace Slug
 
@@ -214,13 +221,23 @@ structure PackPathInv (G : Str → Prop) (fs : FS) (o : PackOpts) : Prop where
 theorem packPathInv_true (fs : FS) (o : PackOpts) : PackPathInv (fun _ => True) fs o :=
   ⟨fun _ _ _ _ _ _ => trivial, fun _ _ => trivial⟩
 
+/-- the options a nested walk runs with: the same options, another `visiting` list.  The walk only
+ever changes that field, and nothing an emission records depends on it: the inductions on fuel
+below are stated for `o.vis v` with `v` arbitrary and instantiated with `v := o.visiting` at the
+end (`o.vis o.visiting` is `o`, by eta). -/
+abbrev PackOpts.vis (o : PackOpts) (v : List PPath) : PackOpts := { o with visiting := v }
+
+theorem PackOpts.vis_self (o : PackOpts) : o.vis o.visiting = o := rfl
+
+theorem PackOpts.vis_vis (o : PackOpts) (v w : List PPath) : (o.vis v).vis w = o.vis w := rfl
+
 theorem pk_visit_emits (G : Str → Prop) (fs : FS) (cwd : Str) (o : PackOpts) (rules : Option (List Rule))
     (root : Str) (hG : PackPathInv G fs o) (fuel : Nat)
-    (ihN : ∀ src dst path node st, G path → fs.lstat path = .ok node →
-      PackEmits G fs cwd o root st (walkNode fs cwd o rules root src dst fuel path node st).1) :
-    ∀ src dst path node st, G path → fs.lstat path = .ok node →
-      PackEmits G fs cwd o root st (visit fs cwd o rules root src dst (fuel + 1) path node st).1 := by
-  intro src dst path node st hg hl
+    (ihN : ∀ v src dst path node st, G path → fs.lstat path = .ok node →
+      PackEmits G fs cwd o root st (walkNode fs cwd (o.vis v) rules root src dst fuel path node st).1) :
+    ∀ v src dst path node st, G path → fs.lstat path = .ok node →
+      PackEmits G fs cwd o root st (visit fs cwd (o.vis v) rules root src dst (fuel + 1) path node st).1 := by
+  intro v src dst path node st hg hl
   cases node with
   | special =>
     rw [visit]
@@ -253,11 +270,11 @@ theorem pk_visit_emits (G : Str → Prop) (fs : FS) (cwd : Str) (o : PackOpts) (
       · have hd' : o.dereference = true := by
           have : ¬ (!o.dereference) = true := by assumption
           simpa using this
-        exact ihN _ _ _ _ _ (hG.deref hd' _) ‹fs.lstat _ = Except.ok _›
+        exact ihN _ _ _ _ _ _ (hG.deref hd' _) ‹fs.lstat _ = Except.ok _›
       · have hd' : o.dereference = true := by
           have : ¬ (!o.dereference) = true := by assumption
           simpa using this
-        exact ihN _ _ _ _ _ (hG.deref hd' _) ‹fs.lstat _ = Except.ok _›
+        exact ihN _ _ _ _ _ _ (hG.deref hd' _) ‹fs.lstat _ = Except.ok _›
       · have hd' : o.dereference = true := by
           have : ¬ (!o.dereference) = true := by assumption
           simpa using this
@@ -271,6 +288,61 @@ theorem pk_visit_emits (G : Str → Prop) (fs : FS) (cwd : Str) (o : PackOpts) (
           (pk_resolveExternalLink_ok fs _ _ _ _ hr).1 hb hlen)
     · intro _ _ h; cases h
 
+/-- `pk_walk_emitsG` for every `visiting` list (what the induction on fuel needs: the nested walk
+into a dereferenced directory runs with a longer list) -/
+theorem pk_walk_emitsG_vis (G : Str → Prop) (fs : FS) (cwd : Str) (o : PackOpts) (rules : Option (List Rule))
+    (root : Str) (hG : PackPathInv G fs o) :
+    ∀ fuel : Nat,
+      (∀ v src dst path node st, G path → fs.lstat path = .ok node →
+        PackEmits G fs cwd o root st (walkNode fs cwd (o.vis v) rules root src dst fuel path node st).1) ∧
+      (∀ v src dst path names st, (∀ n ∈ names, G (pathJoin path n)) →
+        PackEmits G fs cwd o root st (walkChildren fs cwd (o.vis v) rules root src dst fuel path names st).1) ∧
+      (∀ v src dst path node st, G path → fs.lstat path = .ok node →
+        PackEmits G fs cwd o root st (visit fs cwd (o.vis v) rules root src dst fuel path node st).1) := by
+  intro fuel
+  induction fuel with
+  | zero =>
+    refine ⟨?_, ?_, ?_⟩
+    · intro v src dst path node st _ _; rw [walkNode]; exact .refl _
+    · intro v src dst path names st _; rw [walkChildren]; exact .refl _
+    · intro v src dst path node st _ _; rw [visit]; exact .refl _
+  | succ fuel ih =>
+    obtain ⟨ihN, ihC, ihV⟩ := ih
+    refine ⟨?_, ?_, ?_⟩
+    · intro v src dst path node st hg hl
+      have hv := ihV v src dst path _ st hg hl
+      cases node with
+      | dir perm mt =>
+        rw [walkNode]
+        simp only
+        split
+        · split
+          · exact hv
+          · rename_i p hp
+            exact hv.trans (ihC _ _ _ _ _ _ (fun n hn => hG.child path p n hg hp hn))
+        · exact hv
+      | file perm mt c => rw [walkNode]; exact hv; intro _ _ h; cases h
+      | link t => rw [walkNode]; exact hv; intro _ _ h; cases h
+      | special => rw [walkNode]; exact hv; intro _ _ h; cases h
+    · intro v src dst path names st hnames
+      cases names with
+      | nil => rw [walkChildren]; exact .refl _
+      | cons name rest =>
+        have hrest : ∀ n ∈ rest, G (pathJoin path n) := fun n hn => hnames n (List.mem_cons_of_mem _ hn)
+        rw [walkChildren]
+        simp only
+        split
+        · exact .refl _
+        · rename_i child hc
+          have hn := ihN v src dst _ _ st (hnames name (by simp)) hc
+          split
+          · exact hn.trans (ihC _ _ _ _ _ _ hrest)
+          · split
+            · exact hn.trans (ihC _ _ _ _ _ _ hrest)
+            · exact hn
+          · exact hn
+    · exact pk_visit_emits G fs cwd o rules root hG fuel ihN
+
 /-- The simultaneous induction on fuel: each walk function returns its input state extended by
 emissions, all of them at paths satisfying `G`. -/
 theorem pk_walk_emitsG (G : Str → Prop) (fs : FS) (cwd : Str) (o : PackOpts) (rules : Option (List Rule))
@@ -283,48 +355,8 @@ theorem pk_walk_emitsG (G : Str → Prop) (fs : FS) (cwd : Str) (o : PackOpts) (
       (∀ src dst path node st, G path → fs.lstat path = .ok node →
         PackEmits G fs cwd o root st (visit fs cwd o rules root src dst fuel path node st).1) := by
   intro fuel
-  induction fuel with
-  | zero =>
-    refine ⟨?_, ?_, ?_⟩
-    · intro src dst path node st _ _; rw [walkNode]; exact .refl _
-    · intro src dst path names st _; rw [walkChildren]; exact .refl _
-    · intro src dst path node st _ _; rw [visit]; exact .refl _
-  | succ fuel ih =>
-    obtain ⟨ihN, ihC, ihV⟩ := ih
-    refine ⟨?_, ?_, ?_⟩
-    · intro src dst path node st hg hl
-      have hv := ihV src dst path _ st hg hl
-      cases node with
-      | dir perm mt =>
-        rw [walkNode]
-        simp only
-        split
-        · split
-          · exact hv
-          · rename_i p hp
-            exact hv.trans (ihC _ _ _ _ _ (fun n hn => hG.child path p n hg hp hn))
-        · exact hv
-      | file perm mt c => rw [walkNode]; exact hv; intro _ _ h; cases h
-      | link t => rw [walkNode]; exact hv; intro _ _ h; cases h
-      | special => rw [walkNode]; exact hv; intro _ _ h; cases h
-    · intro src dst path names st hnames
-      cases names with
-      | nil => rw [walkChildren]; exact .refl _
-      | cons name rest =>
-        have hrest : ∀ n ∈ rest, G (pathJoin path n) := fun n hn => hnames n (List.mem_cons_of_mem _ hn)
-        rw [walkChildren]
-        simp only
-        split
-        · exact .refl _
-        · rename_i child hc
-          have hn := ihN src dst _ _ st (hnames name (by simp)) hc
-          split
-          · exact hn.trans (ihC _ _ _ _ _ hrest)
-          · split
-            · exact hn.trans (ihC _ _ _ _ _ hrest)
-            · exact hn
-          · exact hn
-    · exact pk_visit_emits G fs cwd o rules root hG fuel ihN
+  have h := pk_walk_emitsG_vis G fs cwd o rules root hG fuel
+  exact ⟨h.1 o.visiting, h.2.1 o.visiting, h.2.2 o.visiting⟩
 
 /-- `pk_walk_emitsG` without a path predicate -/
 theorem pk_walk_emits (fs : FS) (cwd : Str) (o : PackOpts) (rules : Option (List Rule)) (root : Str) :
@@ -435,16 +467,68 @@ theorem PackGrows.trans {a b c : PState} (h1 : PackGrows a b) (h2 : PackGrows b 
   obtain ⟨s2, e2⟩ := h2
   exact ⟨s1 ++ s2, by rw [e2, e1, List.append_assoc]⟩
 
-theorem pk_visit_grows (fs : FS) (cwd : Str) (o : PackOpts) (rules : Option (List Rule)) (root : Str) (fuel : Nat)
-    (ihN : ∀ src dst path node st,
+theorem pk_visit_grows (fs : FS) (cwd : Str) (rules : Option (List Rule)) (root : Str) (fuel : Nat)
+    (ihN : ∀ o src dst path node st,
       PackGrows st (walkNode fs cwd o rules root src dst fuel path node st).1) :
-    ∀ src dst path node st,
+    ∀ o src dst path node st,
       PackGrows st (visit fs cwd o rules root src dst (fuel + 1) path node st).1 := by
-  intro src dst path node st
+  intro o src dst path node st
   cases node <;> rw [visit] <;> first | (intro _ _ h; cases h) | skip
   all_goals simp only [↓reduceIte, Bool.false_eq_true]
   all_goals repeat' split
-  all_goals first | exact .refl _ | exact ⟨[_], rfl⟩ | exact ihN _ _ _ _ _
+  all_goals first | exact .refl _ | exact ⟨[_], rfl⟩ | exact ihN _ _ _ _ _ _
+
+/-- `pk_walk_grows` with the options quantified inside the induction on fuel (the nested walk
+changes them) -/
+theorem pk_walk_grows_all (fs : FS) (cwd : Str) (rules : Option (List Rule)) (root : Str) :
+    ∀ fuel : Nat,
+      (∀ o src dst path node st,
+        PackGrows st (walkNode fs cwd o rules root src dst fuel path node st).1) ∧
+      (∀ o src dst path names st,
+        PackGrows st (walkChildren fs cwd o rules root src dst fuel path names st).1) ∧
+      (∀ o src dst path node st,
+        PackGrows st (visit fs cwd o rules root src dst fuel path node st).1) := by
+  intro fuel
+  induction fuel with
+  | zero =>
+    refine ⟨?_, ?_, ?_⟩
+    · intro o src dst path node st; rw [walkNode]; exact .refl _
+    · intro o src dst path names st; rw [walkChildren]; exact .refl _
+    · intro o src dst path node st; rw [visit]; exact .refl _
+  | succ fuel ih =>
+    obtain ⟨ihN, ihC, ihV⟩ := ih
+    refine ⟨?_, ?_, ?_⟩
+    · intro o src dst path node st
+      have hv := ihV o src dst path node st
+      cases node with
+      | dir perm mt =>
+        rw [walkNode]
+        simp only
+        split
+        · split
+          · exact hv
+          · exact hv.trans (ihC _ _ _ _ _ _)
+        · exact hv
+      | file perm mt c => rw [walkNode]; exact hv; intro _ _ h; cases h
+      | link t => rw [walkNode]; exact hv; intro _ _ h; cases h
+      | special => rw [walkNode]; exact hv; intro _ _ h; cases h
+    · intro o src dst path names st
+      cases names with
+      | nil => rw [walkChildren]; exact .refl _
+      | cons name rest =>
+        rw [walkChildren]
+        simp only
+        split
+        · exact .refl _
+        · rename_i child hc
+          have hn := ihN o src dst (pathJoin path name) child st
+          split
+          · exact hn.trans (ihC _ _ _ _ _ _)
+          · split
+            · exact hn.trans (ihC _ _ _ _ _ _)
+            · exact hn
+          · exact hn
+    · exact pk_visit_grows fs cwd rules root fuel ihN
 
 theorem pk_walk_grows (fs : FS) (cwd : Str) (o : PackOpts) (rules : Option (List Rule)) (root : Str) :
     ∀ fuel : Nat,
@@ -455,46 +539,8 @@ theorem pk_walk_grows (fs : FS) (cwd : Str) (o : PackOpts) (rules : Option (List
       (∀ src dst path node st,
         PackGrows st (visit fs cwd o rules root src dst fuel path node st).1) := by
   intro fuel
-  induction fuel with
-  | zero =>
-    refine ⟨?_, ?_, ?_⟩
-    · intro src dst path node st; rw [walkNode]; exact .refl _
-    · intro src dst path names st; rw [walkChildren]; exact .refl _
-    · intro src dst path node st; rw [visit]; exact .refl _
-  | succ fuel ih =>
-    obtain ⟨ihN, ihC, ihV⟩ := ih
-    refine ⟨?_, ?_, ?_⟩
-    · intro src dst path node st
-      have hv := ihV src dst path node st
-      cases node with
-      | dir perm mt =>
-        rw [walkNode]
-        simp only
-        split
-        · split
-          · exact hv
-          · exact hv.trans (ihC _ _ _ _ _)
-        · exact hv
-      | file perm mt c => rw [walkNode]; exact hv; intro _ _ h; cases h
-      | link t => rw [walkNode]; exact hv; intro _ _ h; cases h
-      | special => rw [walkNode]; exact hv; intro _ _ h; cases h
-    · intro src dst path names st
-      cases names with
-      | nil => rw [walkChildren]; exact .refl _
-      | cons name rest =>
-        rw [walkChildren]
-        simp only
-        split
-        · exact .refl _
-        · rename_i child hc
-          have hn := ihN src dst (pathJoin path name) child st
-          split
-          · exact hn.trans (ihC _ _ _ _ _)
-          · split
-            · exact hn.trans (ihC _ _ _ _ _)
-            · exact hn
-          · exact hn
-    · exact pk_visit_grows fs cwd o rules root fuel ihN
+  have h := pk_walk_grows_all fs cwd rules root fuel
+  exact ⟨h.1 o, h.2.1 o, h.2.2 o⟩
 /-! ## metadata accounting -/
 
 /-- content bytes an entry contributes to `Meta.Size` -/
@@ -745,11 +791,13 @@ theorem PackEmit.bodyBelow {G : Str → Prop} {fs : FS} {cwd : Str} {o : PackOpt
 section
 variable (fs : FS) (cwd : Str) (o : PackOpts) (rules : Option (List Rule)) (root src dst : Str)
 
-/-- the callback on a symlink that passes the ignore tests, is not the root itself, fails
-`validSymlink`, with dereferencing off: illegal slug, state untouched -/
+/-- the callback on a symlink that passes the ignore tests (which look at the archive path `sub`
+since the repair of finding F43), is not the root itself, fails `validSymlink`, with dereferencing
+off: illegal slug, state untouched -/
 theorem pk_visit_link_illegal (fuel : Nat) (path target sub0 sub : Str) (st : PState)
-    (h1 : pathRel src path = some sub0) (h2 : sub0 ≠ dot) (h3 : (ruleExcludes rules sub0).1 = false)
+    (h1 : pathRel src path = some sub0) (h2 : sub0 ≠ dot)
     (h4 : pathRel root (replaceFirst path src dst) = some sub) (h5 : sub ≠ dot)
+    (h3 : (ruleExcludes rules sub).1 = false)
     (hv : validSymlink cwd o.allow root path target = false) (hd : o.dereference = false) :
     visit fs cwd o rules root src dst (fuel + 1) path (.link target) st = (st, .stop .illegal) := by
   rw [visit]
@@ -830,12 +878,13 @@ def PackIllegalCause (fs : FS) (cwd : Str) (o : PackOpts) (root : Str) : Prop :=
     ∃ path target, fs.lstat path = .ok (.link target) ∧ validSymlink cwd o.allow root path target = false
 
 theorem pk_visit_illegal (fs : FS) (cwd : Str) (o : PackOpts) (rules : Option (List Rule)) (root : Str) (fuel : Nat)
-    (ihN : ∀ src dst path node st, fs.lstat path = .ok node →
-      (walkNode fs cwd o rules root src dst fuel path node st).2 = .stop .illegal → PackIllegalCause fs cwd o root) :
-    ∀ src dst path node st, fs.lstat path = .ok node →
-      (visit fs cwd o rules root src dst (fuel + 1) path node st).2 = .stop .illegal →
+    (ihN : ∀ v src dst path node st, fs.lstat path = .ok node →
+      (walkNode fs cwd (o.vis v) rules root src dst fuel path node st).2 = .stop .illegal →
+      PackIllegalCause fs cwd o root) :
+    ∀ v src dst path node st, fs.lstat path = .ok node →
+      (visit fs cwd (o.vis v) rules root src dst (fuel + 1) path node st).2 = .stop .illegal →
       PackIllegalCause fs cwd o root := by
-  intro src dst path node st hl
+  intro v src dst path node st hl
   cases node <;> rw [visit] <;> first | (intro _ _ h; cases h) | skip
   all_goals simp only [↓reduceIte, Bool.false_eq_true]
   all_goals repeat' split
@@ -848,7 +897,66 @@ theorem pk_visit_illegal (fs : FS) (cwd : Str) (o : PackOpts) (rules : Option (L
     cases h
     rcases pk_resolveExternalLink_err fs _ _ _ hr with h | h <;> cases h
   · rename_i child hc _ _
-    exact ihN _ _ _ _ _ hc
+    exact ihN _ _ _ _ _ _ hc
+
+/-- `pk_walk_illegal` for every `visiting` list -/
+theorem pk_walk_illegal_vis (fs : FS) (cwd : Str) (o : PackOpts) (rules : Option (List Rule)) (root : Str) :
+    ∀ fuel : Nat,
+      (∀ v src dst path node st, fs.lstat path = .ok node →
+        (walkNode fs cwd (o.vis v) rules root src dst fuel path node st).2 = .stop .illegal →
+        PackIllegalCause fs cwd o root) ∧
+      (∀ v src dst path names st,
+        (walkChildren fs cwd (o.vis v) rules root src dst fuel path names st).2 = .stop .illegal →
+        PackIllegalCause fs cwd o root) ∧
+      (∀ v src dst path node st, fs.lstat path = .ok node →
+        (visit fs cwd (o.vis v) rules root src dst fuel path node st).2 = .stop .illegal →
+        PackIllegalCause fs cwd o root) := by
+  intro fuel
+  induction fuel with
+  | zero =>
+    refine ⟨?_, ?_, ?_⟩
+    · intro v src dst path node st _; rw [walkNode]; intro h; cases h
+    · intro v src dst path names st; rw [walkChildren]; intro h; cases h
+    · intro v src dst path node st _; rw [visit]; intro h; cases h
+  | succ fuel ih =>
+    obtain ⟨ihN, ihC, ihV⟩ := ih
+    refine ⟨?_, ?_, ?_⟩
+    · intro v src dst path node st hl
+      have hv := ihV v src dst path _ st hl
+      cases node with
+      | dir perm mt =>
+        rw [walkNode]
+        simp only
+        split
+        · split
+          · intro h; cases h
+          · exact ihC _ _ _ _ _ _
+        · rename_i hne
+          intro h
+          exact hv h
+      | file perm mt c => rw [walkNode]; exact hv; intro _ _ h; cases h
+      | link t => rw [walkNode]; exact hv; intro _ _ h; cases h
+      | special => rw [walkNode]; exact hv; intro _ _ h; cases h
+    · intro v src dst path names st
+      cases names with
+      | nil => rw [walkChildren]; intro h; cases h
+      | cons name rest =>
+        rw [walkChildren]
+        simp only
+        split
+        · intro h; cases h
+        · rename_i child hc
+          have hn := ihN v src dst _ _ st hc
+          split
+          · exact ihC _ _ _ _ _ _
+          · split
+            · exact ihC _ _ _ _ _ _
+            · intro h; cases h
+          · rename_i x hx
+            intro h
+            cases h
+            exact hn hx
+    · exact pk_visit_illegal fs cwd o rules root fuel ihN
 
 theorem pk_walk_illegal (fs : FS) (cwd : Str) (o : PackOpts) (rules : Option (List Rule)) (root : Str) :
     ∀ fuel : Nat,
@@ -862,51 +970,8 @@ theorem pk_walk_illegal (fs : FS) (cwd : Str) (o : PackOpts) (rules : Option (Li
         (visit fs cwd o rules root src dst fuel path node st).2 = .stop .illegal →
         PackIllegalCause fs cwd o root) := by
   intro fuel
-  induction fuel with
-  | zero =>
-    refine ⟨?_, ?_, ?_⟩
-    · intro src dst path node st _; rw [walkNode]; intro h; cases h
-    · intro src dst path names st; rw [walkChildren]; intro h; cases h
-    · intro src dst path node st _; rw [visit]; intro h; cases h
-  | succ fuel ih =>
-    obtain ⟨ihN, ihC, ihV⟩ := ih
-    refine ⟨?_, ?_, ?_⟩
-    · intro src dst path node st hl
-      have hv := ihV src dst path _ st hl
-      cases node with
-      | dir perm mt =>
-        rw [walkNode]
-        simp only
-        split
-        · split
-          · intro h; cases h
-          · exact ihC _ _ _ _ _
-        · rename_i hne
-          intro h
-          exact hv h
-      | file perm mt c => rw [walkNode]; exact hv; intro _ _ h; cases h
-      | link t => rw [walkNode]; exact hv; intro _ _ h; cases h
-      | special => rw [walkNode]; exact hv; intro _ _ h; cases h
-    · intro src dst path names st
-      cases names with
-      | nil => rw [walkChildren]; intro h; cases h
-      | cons name rest =>
-        rw [walkChildren]
-        simp only
-        split
-        · intro h; cases h
-        · rename_i child hc
-          have hn := ihN src dst _ _ st hc
-          split
-          · exact ihC _ _ _ _ _
-          · split
-            · exact ihC _ _ _ _ _
-            · intro h; cases h
-          · rename_i x hx
-            intro h
-            cases h
-            exact hn hx
-    · exact pk_visit_illegal fs cwd o rules root fuel ihN
+  have h := pk_walk_illegal_vis fs cwd o rules root fuel
+  exact ⟨h.1 o.visiting, h.2.1 o.visiting, h.2.2 o.visiting⟩
 
 /-- `Pack` reports an illegal slug only when dereferencing is off and some symlink failed
 `validSymlink` -/
@@ -932,14 +997,15 @@ theorem pk_validSymlink_cwd (cwd cwd' : Str) (allow : List Str) (root p t : Str)
   unfold validSymlink
   rw [pathAbs_absClean cwd root h, pathAbs_absClean cwd' root h]
 
-theorem pk_walk_cwd (fs : FS) (cwd cwd' : Str) (o : PackOpts) (rules : Option (List Rule)) (root : Str)
+/-- `pk_walk_cwd` with the options quantified inside the induction on fuel -/
+theorem pk_walk_cwd_all (fs : FS) (cwd cwd' : Str) (rules : Option (List Rule)) (root : Str)
     (hroot : AbsClean root) :
     ∀ fuel : Nat,
-      (∀ src dst path node st, walkNode fs cwd o rules root src dst fuel path node st =
+      (∀ o src dst path node st, walkNode fs cwd o rules root src dst fuel path node st =
         walkNode fs cwd' o rules root src dst fuel path node st) ∧
-      (∀ src dst path names st, walkChildren fs cwd o rules root src dst fuel path names st =
+      (∀ o src dst path names st, walkChildren fs cwd o rules root src dst fuel path names st =
         walkChildren fs cwd' o rules root src dst fuel path names st) ∧
-      (∀ src dst path node st, visit fs cwd o rules root src dst fuel path node st =
+      (∀ o src dst path node st, visit fs cwd o rules root src dst fuel path node st =
         visit fs cwd' o rules root src dst fuel path node st) := by
   intro fuel
   induction fuel with
@@ -951,31 +1017,44 @@ theorem pk_walk_cwd (fs : FS) (cwd cwd' : Str) (o : PackOpts) (rules : Option (L
   | succ fuel ih =>
     obtain ⟨ihN, ihC, ihV⟩ := ih
     refine ⟨?_, ?_, ?_⟩
-    · intro src dst path node st
+    · intro o src dst path node st
       cases node with
       | dir perm mt => rw [walkNode, walkNode]; simp only [ihV, ihC]
       | file perm mt c =>
         rw [walkNode, walkNode]
-        · exact ihV _ _ _ _ _
+        · exact ihV _ _ _ _ _ _
         · intro _ _ h; cases h
         · intro _ _ h; cases h
       | link t =>
         rw [walkNode, walkNode]
-        · exact ihV _ _ _ _ _
+        · exact ihV _ _ _ _ _ _
         · intro _ _ h; cases h
         · intro _ _ h; cases h
       | special =>
         rw [walkNode, walkNode]
-        · exact ihV _ _ _ _ _
+        · exact ihV _ _ _ _ _ _
         · intro _ _ h; cases h
         · intro _ _ h; cases h
-    · intro src dst path names st
+    · intro o src dst path names st
       cases names with
       | nil => rw [walkChildren, walkChildren]
       | cons name rest => rw [walkChildren, walkChildren]; simp only [ihN, ihC]
-    · intro src dst path node st
+    · intro o src dst path node st
       cases node <;> rw [visit, visit] <;>
         first | rfl | (intro _ _ h; cases h) | (simp only [ihN, pk_validSymlink_cwd cwd cwd' _ _ _ _ hroot])
+
+theorem pk_walk_cwd (fs : FS) (cwd cwd' : Str) (o : PackOpts) (rules : Option (List Rule)) (root : Str)
+    (hroot : AbsClean root) :
+    ∀ fuel : Nat,
+      (∀ src dst path node st, walkNode fs cwd o rules root src dst fuel path node st =
+        walkNode fs cwd' o rules root src dst fuel path node st) ∧
+      (∀ src dst path names st, walkChildren fs cwd o rules root src dst fuel path names st =
+        walkChildren fs cwd' o rules root src dst fuel path names st) ∧
+      (∀ src dst path node st, visit fs cwd o rules root src dst fuel path node st =
+        visit fs cwd' o rules root src dst fuel path node st) := by
+  intro fuel
+  have h := pk_walk_cwd_all fs cwd cwd' rules root hroot fuel
+  exact ⟨h.1 o, h.2.1 o, h.2.2 o⟩
 /-- an absolute clean path has no trailing slash (except `/` itself): `Pack` uses `Lstat` on it -/
 theorem pk_rootInfo_absClean (fs : FS) (cwd src : Str) (h : AbsClean src) :
     pkRootInfo fs cwd src = fs.lstat src := by
@@ -1440,4 +1519,710 @@ theorem pk_resolveExternalLink_too_long (fs : FS) : ∀ (n : Nat) (path : Str), 
         cases m with
         | link t => exact absurd rfl (hnl t)
         | _ => simp at h
+/-! ## termination of the walk -/
+
+/-- the physical locations a directory can have: the root and the bound paths -/
+def pkLocs (fs : FS) : List PPath := [] :: fs.map (·.1)
+
+/-- the length of the longest bound path -/
+def pkMaxLen : FS → Nat
+  | [] => 0
+  | e :: r => max e.1.length (pkMaxLen r)
+
+/-- how many locations are not on the `visiting` list -/
+def pkFree (fs : FS) (v : List PPath) : Nat := ((pkLocs fs).filter (fun p => !v.contains p)).length
+
+theorem pk_get_mem {fs : FS} {q : PPath} {n : Node} (h : fs.get q = some n) : (q, n) ∈ fs := by
+  induction fs with
+  | nil => cases h
+  | cons e r ih =>
+    obtain ⟨q', n'⟩ := e
+    unfold FS.get at h
+    split at h
+    · rename_i he; cases h; rw [he]; exact List.mem_cons_self
+    · exact List.mem_cons_of_mem _ (ih h)
+
+theorem pk_mem_len {fs : FS} {e : PPath × Node} (h : e ∈ fs) : e.1.length ≤ pkMaxLen fs := by
+  induction fs with
+  | nil => cases h
+  | cons x r ih =>
+    unfold pkMaxLen
+    rcases List.mem_cons.mp h with h | h
+    · rw [h]; exact Nat.le_max_left _ _
+    · exact Nat.le_trans (ih h) (Nat.le_max_right _ _)
+
+theorem pk_lookup_len {fs : FS} {q : PPath} {n : Node} (h : fs.lookup q = some n) : q.length ≤ pkMaxLen fs := by
+  unfold FS.lookup at h
+  split at h
+  · rename_i hq; rw [hq]; exact Nat.zero_le _
+  · exact pk_mem_len (pk_get_mem h)
+
+theorem pk_lookup_loc {fs : FS} {q : PPath} {n : Node} (h : fs.lookup q = some n) : q ∈ pkLocs fs := by
+  unfold FS.lookup at h
+  unfold pkLocs
+  split at h
+  · rename_i hq; rw [hq]; exact List.mem_cons_self
+  · exact List.mem_cons_of_mem _ (List.mem_map.mpr ⟨_, pk_get_mem h, rfl⟩)
+
+theorem pkFree_le (fs : FS) (v : List PPath) : pkFree fs v ≤ fs.length + 1 := by
+  unfold pkFree
+  refine Nat.le_trans (List.length_filter_le _ _) ?_
+  simp [pkLocs]
+
+theorem pk_filter_le {α : Type} (p q : α → Bool) (himp : ∀ x, q x = true → p x = true) (l : List α) :
+    (l.filter q).length ≤ (l.filter p).length := by
+  induction l with
+  | nil => exact Nat.le_refl _
+  | cons x l ih =>
+    by_cases hq : q x = true
+    · rw [List.filter_cons_of_pos hq, List.filter_cons_of_pos (himp x hq)]
+      simp only [List.length_cons]; omega
+    · rw [List.filter_cons_of_neg hq]
+      by_cases hp : p x = true
+      · rw [List.filter_cons_of_pos hp]; simp only [List.length_cons]; omega
+      · rw [List.filter_cons_of_neg hp]; exact ih
+
+theorem pk_filter_lt {α : Type} (p q : α → Bool) (himp : ∀ x, q x = true → p x = true) (a : α)
+    (hpa : p a = true) (hqa : q a = false) (l : List α) (ha : a ∈ l) :
+    (l.filter q).length < (l.filter p).length := by
+  induction l with
+  | nil => cases ha
+  | cons x l ih =>
+    rcases List.mem_cons.mp ha with h | h
+    · subst h
+      rw [List.filter_cons_of_neg (by simp [hqa]), List.filter_cons_of_pos hpa]
+      have := pk_filter_le p q himp l
+      simp only [List.length_cons]; omega
+    · have := ih h
+      by_cases hq : q x = true
+      · rw [List.filter_cons_of_pos hq, List.filter_cons_of_pos (himp x hq)]
+        simp only [List.length_cons]; omega
+      · rw [List.filter_cons_of_neg hq]
+        by_cases hp : p x = true
+        · rw [List.filter_cons_of_pos hp]; simp only [List.length_cons]; omega
+        · rw [List.filter_cons_of_neg hp]; exact this
+
+/-- pushing a location that is not on the list leaves strictly fewer free ones -/
+theorem pkFree_push (fs : FS) (v : List PPath) (q : PPath) (hq : q ∈ pkLocs fs) (hv : v.contains q = false) :
+    pkFree fs (q :: v) < pkFree fs v := by
+  unfold pkFree
+  apply pk_filter_lt _ _ _ q _ _ _ hq
+  · intro x hx
+    simp only [List.contains_cons, Bool.not_eq_eq_eq_not, Bool.not_true, Bool.or_eq_false_iff] at hx
+    rw [hx.2]; rfl
+  · rw [hv]; rfl
+  · simp
+
+/-! ### a directory lists at most as many names as the filesystem has bindings -/
+
+theorem pk_insertSorted_length (x : Str) (l : List Str) : (insertSorted x l).length = l.length + 1 := by
+  induction l with
+  | nil => rfl
+  | cons y r ih =>
+    rw [insertSorted]
+    split
+    · rfl
+    · simp [ih]
+
+theorem pk_foldr_insertSorted_length (l : List Str) : (l.foldr insertSorted []).length = l.length := by
+  induction l with
+  | nil => rfl
+  | cons x r ih => rw [List.foldr_cons, pk_insertSorted_length, ih]; rfl
+
+theorem pk_dedup_length (l : List Str) : ∀ acc : List Str,
+    (l.foldl (fun acc n => if acc.contains n then acc else acc ++ [n]) acc).length ≤ acc.length + l.length := by
+  induction l with
+  | nil => intro acc; exact Nat.le_refl _
+  | cons x r ih =>
+    intro acc
+    rw [List.foldl_cons]
+    refine Nat.le_trans (ih _) ?_
+    split
+    · simp only [List.length_cons]; omega
+    · simp only [List.length_append, List.length_cons, List.length_nil]; omega
+
+theorem pk_readdir_length (fs : FS) (p : PPath) : (fs.readdir p).length ≤ fs.length := by
+  unfold FS.readdir
+  simp only
+  rw [pk_foldr_insertSorted_length]
+  refine Nat.le_trans (pk_dedup_length _ []) ?_
+  simp only [List.length_nil, Nat.zero_add]
+  exact List.length_filterMap_le _ _
+
+
+/-- resolving `A ++ [name]` without following the last component ends directly below where `A`
+resolves to (following): a child of a directory lies one level below it, physically -/
+theorem pk_resolve_snoc (fs : FS) (name : Seg) (hname : name ≠ dotdot) :
+    ∀ (n : Nat) (cur : PPath) (A : List Seg) (p q : PPath),
+      resolve fs n cur A true = .ok p → resolve fs n cur (A ++ [name]) false = .ok q → q = p ++ [name] := by
+  intro n
+  induction n with
+  | zero => intro cur A p q h; simp [resolve] at h
+  | succ n ih =>
+    intro cur A p q hp hq
+    cases A with
+    | nil =>
+      simp only [resolve] at hp
+      cases hp
+      simp only [List.nil_append] at hq
+      rw [resolve] at hq
+      rw [if_neg hname] at hq
+      simp only at hq
+      split at hq
+      · simpa using hq.symm
+      · cases n with
+        | zero => simp [resolve] at hq
+        | succ n => simp only [resolve] at hq; cases hq; rfl
+      · simp only [Bool.not_false, and_self, if_true] at hq
+        cases hq; rfl
+      · simpa using hq.symm
+    | cons s rest =>
+      rw [List.cons_append, resolve] at hq
+      rw [resolve] at hp
+      by_cases hs : s = dotdot
+      · rw [if_pos hs] at hp hq
+        exact ih _ _ _ _ hp hq
+      · rw [if_neg hs] at hp hq
+        simp only at hp hq
+        have hne : rest ++ [name] ≠ [] := by simp
+        split at hq
+        · rename_i hlk
+          rw [if_neg hne] at hq; cases hq
+        · rename_i pm mt hlk
+          rw [hlk] at hp
+          exact ih _ _ _ _ hp hq
+        · rename_i t hlk
+          rw [hlk] at hp
+          simp only [hne, false_and, if_false] at hq
+          simp only [Bool.not_true, Bool.false_eq_true, and_false, if_false] at hp
+          split at hq
+          · cases hq
+          · rename_i ht
+            rw [if_neg ht] at hp
+            rw [← List.append_assoc] at hq
+            exact ih _ _ _ _ hp hq
+        · rw [if_neg hne] at hq; cases hq
+
+theorem pk_dropWhile_snoc {α : Type} (p : α → Bool) (x : α) (hx : p x = false) (l : List α) :
+    (l ++ [x]).dropWhile p = l.dropWhile p ++ [x] := by
+  induction l with
+  | nil => simp [List.dropWhile, hx]
+  | cons a l ih =>
+    by_cases ha : p a = true
+    · simp [List.dropWhile, ha, ih]
+    · simp [List.dropWhile, ha]
+
+theorem pk_isAbs_pathClean (s : Str) (h : isAbs s = true) : isAbs (pathClean s) = true :=
+  (pathClean_absClean s h).1
+
+/-- `filepath.Dir` of an absolute path is absolute -/
+theorem pk_isAbs_pathDir (s : Str) (h : isAbs s = true) : isAbs (pathDir s) = true := by
+  unfold pathDir
+  apply pk_isAbs_pathClean
+  cases s with
+  | nil => simp [isAbs] at h
+  | cons c r =>
+    have hc : c = '/' := by simpa [isAbs] using h
+    subst hc
+    simp only [List.reverse_cons]
+    rw [pk_dropWhile_snoc _ _ (by simp)]
+    simp [isAbs]
+
+/-- the path `resolveExternalLink` returns is absolute when the link's path is -/
+theorem pk_resolveExternalLink_abs (fs : FS) : ∀ (n : Nat) (path t : Str) (nd : Node),
+    isAbs path = true → resolveExternalLink fs n path = .ok (t, nd) → isAbs t = true := by
+  intro n
+  induction n with
+  | zero => intro path t nd _ h; simp [resolveExternalLink] at h
+  | succ n ih =>
+    intro path t nd habs h
+    rw [resolveExternalLink] at h
+    split at h
+    · cases h
+    · rename_i target _
+      simp only at h
+      have ha : isAbs (if isAbs target then target else pathJoin (pathDir path) target) = true := by
+        split
+        · assumption
+        · exact (pathJoin_absClean _ _ (pk_isAbs_pathDir path habs)).1
+      split at h
+      · cases h
+      · exact ih _ _ _ ha h
+      · cases h; exact ha
+
+/-! ### the three inductions -/
+
+/-- the loop over the names of a directory, given that every child walk with fuel `≥ C` returns -/
+theorem pk_walkChildren_term (fs : FS) (cwd : Str) (o : PackOpts) (rules : Option (List Rule))
+    (root src dst path : Str) (C : Nat) :
+    ∀ names : List Str,
+      (∀ name ∈ names, ∀ g, C ≤ g → ∀ child st, fs.lstat (pathJoin path name) = .ok child →
+        (walkNode fs cwd o rules root src dst g (pathJoin path name) child st).2 ≠ .stop .diverged) →
+      ∀ g st, names.length + 1 + C ≤ g →
+        (walkChildren fs cwd o rules root src dst g path names st).2 ≠ .stop .diverged := by
+  intro names
+  induction names with
+  | nil =>
+    intro _ g st hg
+    obtain ⟨g', rfl⟩ : ∃ g', g = g' + 1 := ⟨g - 1, by simp at hg; omega⟩
+    rw [walkChildren]; intro h; cases h
+  | cons name rest ih =>
+    intro hchild g st hg
+    simp only [List.length_cons] at hg
+    obtain ⟨g', rfl⟩ : ∃ g', g = g' + 1 := ⟨g - 1, by omega⟩
+    have ihr := ih (fun nm hnm => hchild nm (List.mem_cons_of_mem _ hnm))
+    rw [walkChildren]
+    simp only
+    split
+    · intro h; cases h
+    · rename_i child hc
+      have hn := hchild name (by simp) g' (by omega) child st hc
+      split
+      · exact ihr _ _ (by omega)
+      · split
+        · exact ihr _ _ (by omega)
+        · intro h; cases h
+      · rename_i x hx
+        intro h
+        cases h
+        exact hn hx
+
+/-- the callback, given that every nested walk with fuel `≥ B` and strictly fewer free locations
+returns -/
+theorem pk_visit_term (fs : FS) (cwd : Str) (rules : Option (List Rule)) (root : Str) (B k : Nat)
+    (ihN : ∀ o src dst path node st g, B ≤ g → pkFree fs o.visiting < k → isAbs path = true →
+      (walkNode fs cwd o rules root src dst g path node st).2 ≠ .stop .diverged) :
+    ∀ o src dst path node st g, B + 1 ≤ g → pkFree fs o.visiting ≤ k → isAbs path = true →
+      (visit fs cwd o rules root src dst g path node st).2 ≠ .stop .diverged := by
+  intro o src dst path node st g hg hk habs
+  obtain ⟨g', rfl⟩ : ∃ g', g = g' + 1 := ⟨g - 1, by omega⟩
+  cases node <;> rw [visit] <;> first | (intro _ _ h; cases h) | skip
+  all_goals simp only [↓reduceIte, Bool.false_eq_true]
+  all_goals repeat' split
+  all_goals first | (intro h; cases h; done) | skip
+  · rename_i r hr
+    intro h
+    cases h
+    cases pk_resolveExternalLink_err_ioerr fs _ _ _ hr
+  · rename_i absTarget pm mt hr _ phys hphys hnv _ child hc _ _
+    have hdir := (pk_resolveExternalLink_ok fs _ _ _ _ hr).1
+    obtain ⟨q, hs, hq⟩ := pk_stat_of_lstat hdir (by intro t ht; cases ht)
+    have hpq : phys = q := by
+      unfold FS.stat at hs
+      rw [hphys] at hs
+      simp only at hs
+      split at hs
+      · cases hs
+      · cases hs; rfl
+    have hloc : phys ∈ pkLocs fs := by rw [hpq]; exact pk_lookup_loc hq
+    have hlt := pkFree_push fs o.visiting phys hloc (by simpa using hnv)
+    exact ihN _ _ _ _ _ _ g' (by omega) (by simp only; omega)
+      (pk_resolveExternalLink_abs fs _ _ _ _ habs hr)
+
+/-- a slot of the depth budget: either the whole of it (the root of a nested walk, whose path is
+a link target as written), or what is left below the physical location of a clean path -/
+def PkSlot (fs : FS) (path : Str) (d : Nat) : Prop :=
+  pkMaxLen fs + 1 ≤ d ∨
+    (AbsClean path ∧ ∀ p, fs.resolvePath path true = .ok p → pkMaxLen fs ≤ p.length + d)
+
+/-- fuel one level of the recursion uses at most: the loop over the names, and the calls between
+two `walkNode`s -/
+def pkLevel (fs : FS) : Nat := fs.length + 4
+
+theorem pk_walkNode_term (fs : FS) (hfs : PackNamesOK fs) (cwd : Str) (rules : Option (List Rule)) (root : Str) :
+    ∀ r g : Nat, pkLevel fs * r ≤ g → ∀ o src dst path node st k d,
+      pkFree fs o.visiting ≤ k → isAbs path = true → PkSlot fs path d →
+      k * (pkMaxLen fs + 2) + d < r →
+      (walkNode fs cwd o rules root src dst g path node st).2 ≠ .stop .diverged := by
+  intro r
+  induction r with
+  | zero => intro g _ o src dst path node st k d _ _ _ h; omega
+  | succ r ih =>
+    intro g hg o src dst path node st k d hk habs hslot hrank
+    rw [Nat.mul_succ] at hg
+    unfold pkLevel at hg
+    obtain ⟨f, rfl⟩ : ∃ f, g = f + 1 := ⟨g - 1, by omega⟩
+    have hV := pk_visit_term fs cwd rules root ((fs.length + 4) * r) k (by
+      intro o' src' dst' path' node' st' g' hg' hfree habs'
+      refine ih g' hg' o' src' dst' path' node' st' (pkFree fs o'.visiting) (pkMaxLen fs + 1)
+        (Nat.le_refl _) habs' (Or.inl (Nat.le_refl _)) ?_
+      have h1 : (pkFree fs o'.visiting + 1) * (pkMaxLen fs + 2) ≤ k * (pkMaxLen fs + 2) :=
+        Nat.mul_le_mul_right _ hfree
+      rw [Nat.succ_mul] at h1
+      omega)
+    have hother : ∀ nd : Node, (∀ a b, nd ≠ .dir a b) →
+        (walkNode fs cwd o rules root src dst (f + 1) path nd st).2 ≠ .stop .diverged := by
+      intro nd hnd
+      rw [walkNode]
+      · exact hV o src dst path nd st f (by omega) hk habs
+      · intro a b h; exact hnd a b h
+    cases node with
+    | file pm mt c => exact hother _ (by intro a b h; cases h)
+    | link t => exact hother _ (by intro a b h; cases h)
+    | special => exact hother _ (by intro a b h; cases h)
+    | dir pm mt =>
+      have hvd := hV o src dst path (.dir pm mt) st f (by omega) hk habs
+      rw [walkNode]
+      simp only
+      split
+      · split
+        · intro h; cases h
+        · rename_i p hp
+          have hlen := pk_readdir_length fs p
+          refine pk_walkChildren_term fs cwd o rules root src dst path ((fs.length + 4) * r + 2)
+            (fs.readdir p) ?_ f _ (by omega)
+          intro name hname g' hg' child st' hc
+          have habs' : isAbs (pathJoin path name) = true := (pathJoin_absClean path name habs).1
+          have hother' : ∀ nd : Node, (∀ a b, nd ≠ .dir a b) →
+              (walkNode fs cwd o rules root src dst g' (pathJoin path name) nd st').2 ≠ .stop .diverged := by
+            intro nd hnd
+            obtain ⟨g'', rfl⟩ : ∃ g'', g' = g'' + 1 := ⟨g' - 1, by omega⟩
+            rw [walkNode]
+            · exact hV o src dst _ nd st' g'' (by omega) hk habs'
+            · intro a b h; exact hnd a b h
+          cases child with
+          | file pm' mt' c => exact hother' _ (by intro a b h; cases h)
+          | link t => exact hother' _ (by intro a b h; cases h)
+          | special => exact hother' _ (by intro a b h; cases h)
+          | dir pm' mt' =>
+            have hclean' : AbsClean (pathJoin path name) := pathJoin_absClean path name habs
+            rcases hslot with hd | ⟨hclean, hb⟩
+            · -- the root of a nested walk: its children get the whole depth budget
+              exact ih g' (by unfold pkLevel; omega) o src dst _ _ st' k (pkMaxLen fs) hk habs'
+                (Or.inr ⟨hclean', fun p' _ => Nat.le_add_left _ _⟩) (by omega)
+            · -- a clean path: the child lies one level below, physically
+              have hns : NameNS name := pk_readdir_names fs hfs p name hname
+              obtain ⟨q', hq', hlq'⟩ := pk_lstat_ok hc
+              have hq'' := hq'
+              unfold FS.resolvePath at hq' hp
+              rw [pathSegs_pathJoin_name path name hclean hns] at hq'
+              have hqe : q' = p ++ [name] := pk_resolve_snoc fs name hns.1.2.2 _ _ _ _ _ hp hq'
+              have hl1 := pk_lookup_len hlq'
+              have hl2 := hb p hp
+              have hl3 : q'.length = p.length + 1 := by rw [hqe]; simp
+              have hfollow : fs.resolvePath (pathJoin path name) true = .ok q' := by
+                unfold FS.resolvePath at hq'' ⊢
+                apply pk_resolve_follow fs _ _ _ _ hq''
+                intro t ht
+                rw [hlq'] at ht
+                cases ht
+              refine ih g' (by unfold pkLevel; omega) o src dst _ _ st' k (d - 1) hk habs'
+                (Or.inr ⟨hclean', ?_⟩) (by omega)
+              intro p' hp'
+              rw [hfollow] at hp'
+              cases hp'
+              omega
+      · exact hvd
+
+/-- fuel that is enough for every walk over `fs`: `pkLevel` for each of at most
+`(bindings + 1) * (longest path + 2) + longest path + 2` levels of recursion (every nested walk
+takes a location off the free list, every level inside a walk lies deeper, physically) -/
+def pkTermBound (fs : FS) : Nat :=
+  pkLevel fs * ((fs.length + 1) * (pkMaxLen fs + 2) + (pkMaxLen fs + 2))
+
+/-- with fuel `≥ pkTermBound fs` the walk from an absolute path never runs out of fuel -/
+theorem pk_walkNode_terminates (fs : FS) (hfs : PackNamesOK fs) (cwd : Str) (o : PackOpts)
+    (rules : Option (List Rule)) (root src dst : Str) (g : Nat) (hg : pkTermBound fs ≤ g)
+    (path : Str) (node : Node) (st : PState) (habs : isAbs path = true) :
+    (walkNode fs cwd o rules root src dst g path node st).2 ≠ .stop .diverged :=
+  pk_walkNode_term fs hfs cwd rules root _ g hg o src dst path node st (fs.length + 1) (pkMaxLen fs + 1)
+    (pkFree_le fs _) habs (Or.inl (Nat.le_refl _)) (by omega)
+
+theorem pk_visit_terminates (fs : FS) (hfs : PackNamesOK fs) (cwd : Str) (o : PackOpts)
+    (rules : Option (List Rule)) (root src dst : Str) (g : Nat) (hg : pkTermBound fs + 1 ≤ g)
+    (path : Str) (node : Node) (st : PState) (habs : isAbs path = true) :
+    (visit fs cwd o rules root src dst g path node st).2 ≠ .stop .diverged :=
+  pk_visit_term fs cwd rules root (pkTermBound fs) (pkFree fs o.visiting)
+    (fun o' src' dst' path' node' st' g' hg' _ habs' =>
+      pk_walkNode_terminates fs hfs cwd o' rules root src' dst' g' hg' path' node' st' habs')
+    o src dst path node st g hg (Nat.le_refl _) habs
+
+theorem pk_walkChildren_terminates (fs : FS) (hfs : PackNamesOK fs) (cwd : Str) (o : PackOpts)
+    (rules : Option (List Rule)) (root src dst : Str) (g : Nat) (path : Str) (names : List Str)
+    (hg : pkTermBound fs + names.length + 1 ≤ g) (st : PState) (habs : isAbs path = true) :
+    (walkChildren fs cwd o rules root src dst g path names st).2 ≠ .stop .diverged :=
+  pk_walkChildren_term fs cwd o rules root src dst path (pkTermBound fs) names
+    (fun name _ g' hg' child st' _ =>
+      pk_walkNode_terminates fs hfs cwd o rules root src dst g' hg' _ child st'
+        (pathJoin_absClean path name habs).1)
+    g st (by omega)
+
+/-- `Pack` does not report `diverged` when the fuel the model gives the walk covers the bound
+(`packFuel` is an artefact of the model, the bound a property of the filesystem) -/
+theorem pk_pack_terminates (fs : FS) (hfs : PackNamesOK fs) (cwd : Str) (o : PackOpts) (src : Str)
+    (hcwd : isAbs cwd = true) (hsmall : pkTermBound fs ≤ packFuel) :
+    (pack fs cwd o src).2 ≠ .diverged := by
+  rw [pk_pack_eq]
+  split
+  · intro h; cases h
+  · split
+    · intro h; cases h
+    · rename_i n hn
+      have := pk_walkNode_terminates fs hfs cwd o (pkRules fs cwd o src) (pkRoot fs cwd src) (pkRoot fs cwd src)
+        (pkRoot fs cwd src) packFuel hsmall (pkRoot fs cwd src) n pkEmpty (pk_root_absClean fs cwd src hcwd).1
+      unfold pkFinish
+      simp only
+      split
+      · rename_i r hr
+        intro h
+        rw [h] at hr
+        exact this hr
+      · intro h; cases h
+/-! ### the answer does not depend on the fuel, once there is enough -/
+
+theorem pk_ne_diverged_of_skipDir {x : WalkRes} (h : x = .skipDir) : x ≠ .stop .diverged := by
+  rw [h]; intro c; cases c
+
+theorem pk_visit_fuel_succ (fs : FS) (cwd : Str) (rules : Option (List Rule)) (root : Str) (f : Nat)
+    (ihN : ∀ o src dst path node st,
+      (walkNode fs cwd o rules root src dst f path node st).2 ≠ .stop .diverged →
+      walkNode fs cwd o rules root src dst (f + 1) path node st = walkNode fs cwd o rules root src dst f path node st) :
+    ∀ o src dst path node st,
+      (visit fs cwd o rules root src dst (f + 1) path node st).2 ≠ .stop .diverged →
+      visit fs cwd o rules root src dst (f + 2) path node st = visit fs cwd o rules root src dst (f + 1) path node st := by
+  intro o src dst path node st
+  cases node <;> rw [visit, visit] <;> first | (intro _ _ h; cases h) | skip
+  all_goals simp only [↓reduceIte, Bool.false_eq_true]
+  all_goals repeat' split
+  all_goals first | (intro _; trivial) | (intro _; rfl) | skip
+  all_goals
+    intro h
+    first
+    | (have e := ihN _ _ _ _ _ _ h
+       simp_all)
+    | (have e := ihN _ _ _ _ _ _ (pk_ne_diverged_of_skipDir ‹_ = WalkRes.skipDir›)
+       simp_all)
+
+/-- one more unit of fuel does not change an answer that is not "out of fuel" -/
+theorem pk_walk_fuel_succ (fs : FS) (cwd : Str) (rules : Option (List Rule)) (root : Str) :
+    ∀ f : Nat,
+      (∀ o src dst path node st,
+        (walkNode fs cwd o rules root src dst f path node st).2 ≠ .stop .diverged →
+        walkNode fs cwd o rules root src dst (f + 1) path node st =
+          walkNode fs cwd o rules root src dst f path node st) ∧
+      (∀ o src dst path names st,
+        (walkChildren fs cwd o rules root src dst f path names st).2 ≠ .stop .diverged →
+        walkChildren fs cwd o rules root src dst (f + 1) path names st =
+          walkChildren fs cwd o rules root src dst f path names st) ∧
+      (∀ o src dst path node st,
+        (visit fs cwd o rules root src dst f path node st).2 ≠ .stop .diverged →
+        visit fs cwd o rules root src dst (f + 1) path node st =
+          visit fs cwd o rules root src dst f path node st) := by
+  intro f
+  induction f with
+  | zero =>
+    refine ⟨?_, ?_, ?_⟩
+    · intro o src dst path node st h; rw [walkNode] at h; exact absurd rfl h
+    · intro o src dst path names st h; rw [walkChildren] at h; exact absurd rfl h
+    · intro o src dst path node st h; rw [visit] at h; exact absurd rfl h
+  | succ f ih =>
+    obtain ⟨ihN, ihC, ihV⟩ := ih
+    refine ⟨?_, ?_, ?_⟩
+    · intro o src dst path node st
+      have hother : ∀ nd : Node, (∀ a b, nd ≠ .dir a b) →
+          (walkNode fs cwd o rules root src dst (f + 1) path nd st).2 ≠ .stop .diverged →
+          walkNode fs cwd o rules root src dst (f + 1 + 1) path nd st =
+            walkNode fs cwd o rules root src dst (f + 1) path nd st := by
+        intro nd hnd
+        rw [walkNode, walkNode]
+        · exact ihV o src dst path nd st
+        · intro a b h; exact hnd a b h
+        · intro a b h; exact hnd a b h
+      cases node with
+      | file pm mt c => exact hother _ (by intro a b h; cases h)
+      | link t => exact hother _ (by intro a b h; cases h)
+      | special => exact hother _ (by intro a b h; cases h)
+      | dir pm mt =>
+        rw [walkNode, walkNode]
+        simp only
+        intro h
+        have hv : (visit fs cwd o rules root src dst f path (.dir pm mt) st).2 ≠ .stop .diverged := by
+          intro hv
+          apply h
+          simp [hv]
+        rw [ihV o src dst path _ st hv]
+        split
+        · split
+          · rfl
+          · rename_i hc _ p hp
+            simp only [hc, hp] at h
+            exact ihC _ _ _ _ _ _ h
+        · rfl
+    · intro o src dst path names st
+      cases names with
+      | nil => intro _; rw [walkChildren, walkChildren]
+      | cons name rest =>
+        rw [walkChildren, walkChildren]
+        simp only
+        split
+        · intro _; rfl
+        · rename_i child hc
+          intro h
+          have hn : (walkNode fs cwd o rules root src dst f (pathJoin path name) child st).2 ≠ .stop .diverged := by
+            intro hn
+            apply h
+            simp [hn]
+          rw [ihN o src dst _ child st hn]
+          split
+          · rename_i hr
+            simp only [hr] at h
+            exact ihC _ _ _ _ _ _ h
+          · rename_i hr
+            simp only [hr] at h
+            split
+            · simp only at h
+              exact ihC _ _ _ _ _ _ h
+            · rfl
+          · rfl
+    · exact pk_visit_fuel_succ fs cwd rules root f ihN
+
+/-- more fuel does not change an answer that is not "out of fuel" -/
+theorem pk_walkNode_fuel_mono (fs : FS) (cwd : Str) (o : PackOpts) (rules : Option (List Rule))
+    (root src dst : Str) (f g : Nat) (hfg : f ≤ g) (path : Str) (node : Node) (st : PState)
+    (h : (walkNode fs cwd o rules root src dst f path node st).2 ≠ .stop .diverged) :
+    walkNode fs cwd o rules root src dst g path node st = walkNode fs cwd o rules root src dst f path node st := by
+  obtain ⟨d, rfl⟩ : ∃ d, g = f + d := ⟨g - f, by omega⟩
+  induction d with
+  | zero => rfl
+  | succ d ih =>
+    have e := ih (by omega)
+    rw [← e] at h
+    rw [← e]
+    exact (pk_walk_fuel_succ fs cwd rules root (f + d)).1 o src dst path node st h
+
+/-- from `pkTermBound fs` on, the answer of the walk does not depend on the fuel -/
+theorem pk_walkNode_fuel_irrelevant (fs : FS) (hfs : PackNamesOK fs) (cwd : Str) (o : PackOpts)
+    (rules : Option (List Rule)) (root src dst : Str) (g : Nat) (hg : pkTermBound fs ≤ g)
+    (path : Str) (node : Node) (st : PState) (habs : isAbs path = true) :
+    walkNode fs cwd o rules root src dst g path node st =
+      walkNode fs cwd o rules root src dst (pkTermBound fs) path node st :=
+  pk_walkNode_fuel_mono fs cwd o rules root src dst _ g hg path node st
+    (pk_walkNode_terminates fs hfs cwd o rules root src dst _ (Nat.le_refl _) path node st habs)
+
+/-! ## the ignore rules see the archive path (finding F43) -/
+
+/-- an entry whose archive path (its name, without the trailing slash of a directory entry) is
+excluded by the ignore rules is not written, whatever the options and wherever the walk is: the
+callback returns `cont` with the state untouched -/
+theorem pk_visit_excluded_emits_nothing (fs : FS) (cwd : Str) (o : PackOpts) (rules : Option (List Rule))
+    (root src dst : Str) (fuel : Nat) (path : Str) (node : Node) (st : PState) (sub0 sub : Str)
+    (h1 : pathRel src path = some sub0) (h2 : sub0 ≠ dot)
+    (h4 : pathRel root (replaceFirst path src dst) = some sub)
+    (h3 : (ruleExcludes rules sub).1 = true) :
+    visit fs cwd o rules root src dst (fuel + 1) path node st = (st, .cont) := by
+  cases node <;> rw [visit] <;> first | (intro _ _ h; cases h) | skip
+  all_goals simp only [h1, h2, h4, h3, ↓reduceIte]
+  all_goals split <;> rfl
+
+/-- what the rules said about the name of an entry: the archive path `sub` was not excluded; a
+directory entry is named `sub/`, and that was not excluded either -/
+def PkNotExcluded (rules : Option (List Rule)) (e : Entry) : Prop :=
+  ∃ sub, (ruleExcludes rules sub).1 = false ∧
+    (e.name = sub ∨ (e.typ = tDir ∧ e.name = sub ++ ['/'] ∧ (ruleExcludes rules (sub ++ ['/'])).1 = false))
+
+/-- the entry list of `st'` extends that of `st` by entries satisfying `Q` -/
+def PackGrowsBy (Q : Entry → Prop) (st st' : PState) : Prop :=
+  ∃ suffix, st'.entries = st.entries ++ suffix ∧ ∀ e ∈ suffix, Q e
+
+theorem PackGrowsBy.refl {Q : Entry → Prop} (st : PState) : PackGrowsBy Q st st := ⟨[], by simp, by simp⟩
+
+theorem PackGrowsBy.trans {Q : Entry → Prop} {a b c : PState} (h1 : PackGrowsBy Q a b) (h2 : PackGrowsBy Q b c) :
+    PackGrowsBy Q a c := by
+  obtain ⟨s1, e1, q1⟩ := h1
+  obtain ⟨s2, e2, q2⟩ := h2
+  refine ⟨s1 ++ s2, by rw [e2, e1, List.append_assoc], ?_⟩
+  intro e he
+  rcases List.mem_append.mp he with h | h
+  · exact q1 e h
+  · exact q2 e h
+
+theorem PackGrowsBy.one {Q : Entry → Prop} (st : PState) (e : Entry) (pm : PMeta) (h : Q e) :
+    PackGrowsBy Q st { entries := st.entries ++ [e], pmeta := pm } :=
+  ⟨[e], rfl, by intro x hx; simp at hx; rw [hx]; exact h⟩
+
+theorem pk_visit_not_excluded (fs : FS) (cwd : Str) (rules : Option (List Rule)) (root : Str) (fuel : Nat)
+    (ihN : ∀ o src dst path node st,
+      PackGrowsBy (PkNotExcluded rules) st (walkNode fs cwd o rules root src dst fuel path node st).1) :
+    ∀ o src dst path node st,
+      PackGrowsBy (PkNotExcluded rules) st (visit fs cwd o rules root src dst (fuel + 1) path node st).1 := by
+  intro o src dst path node st
+  cases node <;> rw [visit] <;> first | (intro _ _ h; cases h) | skip
+  all_goals simp only [↓reduceIte, Bool.false_eq_true]
+  all_goals repeat' split
+  all_goals first | exact .refl _ | exact ihN _ _ _ _ _ _ | skip
+  · rename_i hex hexd
+    exact .one st _ _ ⟨_, by simpa using hex, Or.inr ⟨rfl, rfl, by simpa using hexd⟩⟩
+  · rename_i hex _ _ _
+    exact .one st _ _ ⟨_, by simpa using hex, Or.inl rfl⟩
+  · rename_i hex _
+    exact .one st _ _ ⟨_, by simpa using hex, Or.inl rfl⟩
+  · rename_i hex _ _ _ _ _ _ _ _ _ _ _ _
+    exact .one st _ _ ⟨_, by simpa using hex, Or.inl rfl⟩
+
+/-- every entry the walk appends — any options, any nesting of dereferenced directories — has a
+name the ignore rules did not exclude -/
+theorem pk_walk_names_not_excluded (fs : FS) (cwd : Str) (rules : Option (List Rule)) (root : Str) :
+    ∀ fuel : Nat,
+      (∀ o src dst path node st,
+        PackGrowsBy (PkNotExcluded rules) st (walkNode fs cwd o rules root src dst fuel path node st).1) ∧
+      (∀ o src dst path names st,
+        PackGrowsBy (PkNotExcluded rules) st (walkChildren fs cwd o rules root src dst fuel path names st).1) ∧
+      (∀ o src dst path node st,
+        PackGrowsBy (PkNotExcluded rules) st (visit fs cwd o rules root src dst fuel path node st).1) := by
+  intro fuel
+  induction fuel with
+  | zero =>
+    refine ⟨?_, ?_, ?_⟩
+    · intro o src dst path node st; rw [walkNode]; exact .refl _
+    · intro o src dst path names st; rw [walkChildren]; exact .refl _
+    · intro o src dst path node st; rw [visit]; exact .refl _
+  | succ fuel ih =>
+    obtain ⟨ihN, ihC, ihV⟩ := ih
+    refine ⟨?_, ?_, ?_⟩
+    · intro o src dst path node st
+      have hv := ihV o src dst path node st
+      cases node with
+      | dir perm mt =>
+        rw [walkNode]
+        simp only
+        split
+        · split
+          · exact hv
+          · exact hv.trans (ihC _ _ _ _ _ _)
+        · exact hv
+      | file perm mt c => rw [walkNode]; exact hv; intro _ _ h; cases h
+      | link t => rw [walkNode]; exact hv; intro _ _ h; cases h
+      | special => rw [walkNode]; exact hv; intro _ _ h; cases h
+    · intro o src dst path names st
+      cases names with
+      | nil => rw [walkChildren]; exact .refl _
+      | cons name rest =>
+        rw [walkChildren]
+        simp only
+        split
+        · exact .refl _
+        · rename_i child hc
+          have hn := ihN o src dst (pathJoin path name) child st
+          split
+          · exact hn.trans (ihC _ _ _ _ _ _)
+          · split
+            · exact hn.trans (ihC _ _ _ _ _ _)
+            · exact hn
+          · exact hn
+    · exact pk_visit_not_excluded fs cwd rules root fuel ihN
+
+/-- the entries of a slug: none has a name the rule set `Pack` walked with excludes -/
+theorem pk_pack_names_not_excluded (fs : FS) (cwd : Str) (o : PackOpts) (src : Str) :
+    ∀ e ∈ (pack fs cwd o src).1.entries, PkNotExcluded (pkRules fs cwd o src) e := by
+  rw [pk_pack_eq]
+  split
+  · intro e he; cases he
+  · split
+    · intro e he; cases he
+    · rw [pkFinish_fst]
+      obtain ⟨sfx, hs, hq⟩ := (pk_walk_names_not_excluded fs cwd (pkRules fs cwd o src) (pkRoot fs cwd src)
+        packFuel).1 o (pkRoot fs cwd src) (pkRoot fs cwd src) (pkRoot fs cwd src) ‹Node› pkEmpty
+      intro e he
+      rw [hs] at he
+      exact hq e (by simpa [pkEmpty] using he)
 end Slug
